@@ -10,6 +10,19 @@ BASELINE_OFF = ("cd /repo && env -u CNES_PANDORA_VERIF /venv/bin/python -m pytes
 
 # id -> (technique, level text, level note, design ref)
 CLAIMED = {
+    "C20": (
+        "Exhaustive enumeration of legal step sequences x parameter grid, plus Hypothesis pipelines, vs. a restated margin function; metamorphic monotonicity",
+        "Exploration with an exhaustive sub-space: every DFA-legal sequence of step kinds up to length 5 (quick) / 6 "
+        "(thorough) on a grid of window and filter parameters, generated pipelines with suffixes / windows 1-11 / "
+        "filter sizes 1-9 / sigma_space 0.3-20 / image shapes 8x8..200x300, and filter classes built with step 1-3, "
+        "are checked on fresh machines; margins.to_dict() must list exactly the margin-bearing steps under their "
+        "configured names with the documented values, the global margins must be the per-side max of the cumulative "
+        "sum and each non-cumulative entry, be non-negative, be unchanged by the right/left round of a validation step "
+        "and never decrease when a step is inserted.",
+        "Trusted: expected_margins() in pbt/props/c20.py (restated from the property text). The 'stored under margins "
+        "in the saved configuration' clause is decided by C19.",
+        "DESIGN.md §5 C20",
+    ),
     "C01": (
         "Exhaustive enumeration of step sequences vs. the documented DFA; Hypothesis-generated pipelines and check/run histories vs. a run-trace model",
         "Exploration with an exhaustive sub-space: every sequence of the ten step kinds up to length 4 (quick) / 5 "
